@@ -246,6 +246,7 @@ impl Monitor for C19 {
             let last = if t.v6 { 12 } else { 0 };
             let delta = (rng.next() as u32) | 1;
             let db = delta.to_be_bytes();
+            // every sibling is derived from the one judged just before it
             // (1) same addresses, other ports - version 2 converted first
             let mut a = t.clone();
             a.sp = t.sp.wrapping_add(1 + rng.below(1000) as u16);
@@ -253,26 +254,31 @@ impl Monitor for C19 {
             judge_ordered(&a, true, rec);
             // (2) destination address and ports changed by the same 32-bit delta (any xor-fold of
             //     the endpoints stays the same)
-            let mut b = t.clone();
+            let mut b = a.clone();
             for k in 0..4 {
                 b.dst[last + k] ^= db[k];
             }
             b.sp ^= (delta >> 16) as u16;
             b.dp ^= delta as u16;
             judge(&b, rec);
-            // (3) the same with the source address
-            let mut c = t.clone();
+            // (3) the same with the source address and the ports the other way round
+            let mut c = b.clone();
             for k in 0..4 {
                 c.src[last + k] ^= db[k];
             }
             c.sp ^= delta as u16;
             c.dp ^= (delta >> 16) as u16;
             judge_ordered(&c, true, rec);
-            // (4) endpoints exchanged
-            let mut d = t.clone();
+            // (4) a sum-preserving change: +1 on one port, -1 on the other
+            let mut e = c.clone();
+            e.sp = c.sp.wrapping_add(1);
+            e.dp = c.dp.wrapping_sub(1);
+            judge(&e, rec);
+            // (5) endpoints exchanged
+            let mut d = e.clone();
             std::mem::swap(&mut d.src, &mut d.dst);
             std::mem::swap(&mut d.sp, &mut d.dp);
-            judge(&d, rec);
+            judge_ordered(&d, true, rec);
             judge_ordered(&t, true, rec);
         }
     }
